@@ -28,3 +28,23 @@ Example C05_wrap_example :
   let a1 := QEv (Evt 5 1) 3 (-128)%Z false in let a2 := QEv (Evt 5 2) 3 127%Z false in
   sort_desc 127%Z [a2; a1] = [a1; a2] /\ is_new 127%Z a1 = true /\ is_old 127%Z a2 = true.
 Proof. vm_compute. auto. Qed.
+
+(* ---- backmp11: the boundary of the 16-bit sequence counter (finding F6) ---- *)
+From Msm Require Import Lemmas_Fifo.
+From Coq Require Import ZArith.
+
+(* an occurrence that stays stored while the counter makes a whole turn carries the current sequence value again *)
+Theorem C05_mp11_age_full_turn : forall c, ((c - MW) mod MW = c mod MW)%Z.
+Proof. exact age_full_turn. Qed.
+Print Assumptions C05_mp11_age_full_turn.
+
+(* ... below that bound the pool is the abstract queue (C04_mp11_pool_refines_fifo); at the bound the unrestricted
+   statement is refuted in the model exactly as in the library (pinned replay F6): the older occurrence (payload 1) is
+   passed over and the younger one (payload 3) is dispatched first *)
+Theorem C05_mp11_order_refuted_at_counter_turn :
+  let mc := Machine [] [] [] [] HNone in
+  let rn := RN [] [] [] [QEv (Evt 5 1) 0 7%Z false; QEv (Evt 7 3) 0 6%Z false] [] 7%Z false true in
+  let '(_, _, g) := pool_loop (Cfg Mp11 false 0 false) [] false mc [] (mstubd (fun _ => [])) 10 0 0 0 rn (Glob [] 0 [] [] [] 0) in
+  rev (g_tr g) = [Res 3; Res 1].
+Proof. exact mp11_pool_overtakes_at_wrap. Qed.
+Print Assumptions C05_mp11_order_refuted_at_counter_turn.
